@@ -233,7 +233,7 @@ def r4(repo, res, m, V):
         res.err("C03.R4", f"slot table outside folding language: {e}")
         return
     x = {k: ((hash(str(k)) % 5) / 4.0) for k in S}  # arbitrary fractional test point
-    x = {k: round(0.11 + 0.09 * i, 2) for i, k in enumerate(sorted(S, key=str))}
+    x = {k: round(0.11 + 0.09 * i + 0.017 * VAL_SEED * ((i * 3) % 5), 3) for i, k in enumerate(sorted(S, key=str))}
     cov = {"e1": (2.25, 1.5), "e2": (3.0, 3.5), "pce": (0.0, 2.0)}
     E = {"e1": 0.125, "e2": -0.5, "pce": 0.75}
     EG = {"e1": -0.25, "e2": 0.5, "pce": 0.0}
@@ -332,7 +332,7 @@ def r5(repo, res, m, V):
     configs = sample_configs()
     try:
         S = build_structures(f, configs, 3, "5")
-        x = {k: round(0.11 + 0.09 * i, 2) for i, k in enumerate(sorted(S, key=str))}
+        x = {k: round(0.11 + 0.09 * i + 0.017 * VAL_SEED * ((i * 3) % 5), 3) for i, k in enumerate(sorted(S, key=str))}
         prof = Obj(cn_diff=10.0, cn_fit=1.0, cn_parsimony=0.5, cn_fusion_left=0.5, cn_fusion_right=0.25, cn_pce_penalty=2.0,
                    cn_max=20, gap=0.0)
         gene = Obj(unique_regions=REG, cn_configs=configs, name="G")
@@ -508,7 +508,22 @@ def r7(repo, res):
                found="ok" if ok else "not dominated", key=f"exome:{prof}")
 
 
+VAL_SEED = 0
+
+
 def run(repo, res):
+    global VAL_SEED
+    from sa.report import seed as _seed, thorough
+
+    rounds = [0] if not thorough() else [0] + [1 + (_seed() + j) % 97 for j in range(4)]
+    for sd in rounds:
+        VAL_SEED = sd
+        _run(repo, res)
+    res.count("C03:valuations evaluated per template", len(rounds))
+    VAL_SEED = 0
+
+
+def _run(repo, res):
     f = repo.func("cn::solve_cn_model")
     res.analysed(f)
     m = Model(f)
